@@ -132,6 +132,55 @@ def theorem_names(module: str) -> list[str]:
     return names
 
 
+def theorem_spans(module: str) -> list[tuple[str, int, int]]:
+    """(fully qualified theorem name, first line, last line) for a Props module: a theorem's span runs
+    to the line before the next top-level declaration."""
+    path = LEAN / (module.replace(".", "/") + ".lean")
+    lines = path.read_text().splitlines()
+    ns: list[str] = []
+    starts: list[tuple[int, str | None]] = []
+    decl = re.compile(r"^(?:@\[[^\]]*\]\s*)?(?:private\s+|protected\s+)?(?:noncomputable\s+)?"
+                      r"(theorem|lemma|def|abbrev|example|instance|structure|inductive|omit|section|end|namespace|open|variable|/-[-!])")
+    for i, line in enumerate(lines, 1):
+        m = re.match(r"^namespace\s+(\S+)", line)
+        if m:
+            ns.append(m.group(1))
+        m2 = re.match(r"^end\s+(\S+)", line)
+        if m2 and ns and ns[-1] == m2.group(1):
+            ns.pop()
+        m3 = re.match(r"^(?:@\[[^\]]*\]\s*)?(?:protected\s+)?theorem\s+([^\s:({\[]+)", line)
+        if m3:
+            starts.append((i, ".".join([*ns, m3.group(1)])))
+        elif decl.match(line):
+            starts.append((i, None))
+    out = []
+    for k, (ln, name) in enumerate(starts):
+        if name is None:
+            continue
+        end = starts[k + 1][0] - 1 if k + 1 < len(starts) else len(lines)
+        out.append((name, ln, end))
+    return out
+
+
+def localise_errors(module: str, log: str) -> tuple[list[str], bool]:
+    """Theorems of `module` inside whose source span the build log reports an error, and whether
+    every error of that file could be attributed to a theorem (else: an error in an import, a
+    definition or a private lemma, and all theorems of the module must be considered broken)."""
+    rel = module.replace(".", "/") + ".lean"
+    errs = [int(m.group(1)) for m in re.finditer(r"error: (?:\./)?" + re.escape(rel) + r":(\d+):\d+", log)]
+    spans = theorem_spans(module)
+    hit, attributed = [], True
+    for ln in errs:
+        names = [n for n, a, b in spans if a <= ln <= b]
+        if names:
+            hit += [n for n in names if n not in hit]
+        else:
+            attributed = False
+    if not errs:
+        attributed = False
+    return hit, attributed
+
+
 def grep_forbidden(paths: list[Path]) -> list[str]:
     hits = []
     for p in paths:
